@@ -154,14 +154,14 @@ Spec == Init /\ [][Next]_tvars
 (* only its own property, and evaluation is lazy per selected name.                 *)
 Wanted(c) == IOEnv.LV_PROPS = "ALL" \/ \E i \in 1..(Len(IOEnv.LV_PROPS) - 2) : SubSeq(IOEnv.LV_PROPS, i, i + 2) = SubSeq(c, 1, 3)
 
-StateNames == {"C01_Keys", "C01_Values", "C01_Digest", "C02_RealResult", "C03_OnlyNeeded", "C03_AtMostOnce",
+StateNames == {"C01_Returns", "C01_Keys", "C01_Values", "C01_Digest", "C02_RealResult", "C03_OnlyNeeded", "C03_AtMostOnce",
                "C03_LoadIffCached", "C03_Marked", "C04_Workers", "C04_Type", "C05_AtRest", "C10_OnlyOwnFailures",
                "C10_Continue", "C10_NoValueForFailed", "C10_CachedOk", "C10_FailFast", "C10_NoStartAfterExit",
                "C11_NoIdleWait", "C11_NoSpin", "C14_ExitClass", "C14_RunningFinish", "C14_RunningCached",
                "C14_CacheConsistent", "C16_Env", "C17_Retained", "C17_Prompt", "C17_Captured",
                "C17_EmptyAtReturn", "C19_ExactlyOnce"}
 StateHolds(c) ==
-  CASE c = "C01_Keys" -> Abs!C01_Keys [] c = "C01_Values" -> Abs!C01_Values [] c = "C01_Digest" -> Abs!C01_Digest
+  CASE c = "C01_Returns" -> Abs!C01_Returns [] c = "C01_Keys" -> Abs!C01_Keys [] c = "C01_Values" -> Abs!C01_Values [] c = "C01_Digest" -> Abs!C01_Digest
     [] c = "C02_RealResult" -> Abs!C02_RealResult
     [] c = "C03_OnlyNeeded" -> Abs!C03_OnlyNeeded [] c = "C03_AtMostOnce" -> Abs!C03_AtMostOnce
     [] c = "C03_LoadIffCached" -> Abs!C03_LoadIffCached [] c = "C03_Marked" -> Abs!C03_Marked
